@@ -586,6 +586,7 @@ func standingAssumptions() []string {
 		"sequential semantics: no interleaving of other goroutines with the function under contract",
 		"slice lengths/capacities are at most 2^40 elements",
 		"pointers of named struct types that never occur by value inside another type point to the start of an allocation (no unsafe)",
+		"partial correctness: a path that panics (explicit panic, load or store through a nil pointer) is not an execution that returns - postconditions say nothing about it unless the contract claims nopanic; index-out-of-range and failed type assertions are NOT treated that way (their results are abstracted)",
 		"logging/metrics/fmt/errors constructors on the allowlist neither panic nor mutate modelled state",
 		"induction over histories from per-operation preservation is stated, not mechanised",
 	}
